@@ -21,6 +21,11 @@ func NewNoOwnerReferences(restMapper meta.RESTMapper) *NoOwnerReferences {
 }
 
 func (p *NoOwnerReferences) Check(ctx context.Context, _, obj client.Object) (violations []Violation, err error) {
+	if isTeardownContext(ctx) {
+		// Owner references in the desired state of an object don't matter when it is going to be deleted.
+		return nil, nil
+	}
+
 	defer addPositionToViolations(ctx, obj, &violations)
 
 	if len(obj.GetOwnerReferences()) != 0 {
